@@ -2,9 +2,11 @@ package sim
 
 import (
 	"errors"
+	"fmt"
 	"net"
 	"sort"
 
+	"github.com/pascaldekloe/mqtt"
 	"verifh/refmqtt"
 )
 
@@ -34,13 +36,25 @@ type Store struct {
 	parked   int
 	release  int
 	unparks  int
+	// inner, when set, is the Persistence which really holds the values (the
+	// library's volatile map or its FileSystem): the Store still logs every
+	// operation with a copy of what it was given and keeps m as the model of
+	// the content, but what Load and List answer comes from inner. A
+	// disagreement between the two is the inner one's doing.
+	inner   mqtt.Persistence
+	Flavour string
 }
 
-func newStore(w *World, initial map[uint][]byte) *Store {
-	s := &Store{w: w, m: map[uint][]byte{}, initial: map[uint][]byte{}, failNext: map[byte]int{}, parkNext: map[byte]int{}}
+func newStore(w *World, initial map[uint][]byte, inner mqtt.Persistence, flavour string) *Store {
+	s := &Store{w: w, m: map[uint][]byte{}, initial: map[uint][]byte{}, failNext: map[byte]int{}, parkNext: map[byte]int{}, inner: inner, Flavour: flavour}
 	for k, v := range initial {
 		s.m[k] = append([]byte(nil), v...)
 		s.initial[k] = append([]byte(nil), v...)
+		if inner != nil {
+			if err := inner.Save(k, net.Buffers{append([]byte(nil), v...)}); err != nil {
+				panic(fmt.Sprintf("VERIF-INFRA: %s store: initial Save(%#x): %v", flavour, k, err))
+			}
+		}
 	}
 	return s
 }
@@ -82,6 +96,11 @@ func (s *Store) Load(key uint) ([]byte, error) {
 		s.record(StoreOp{Kind: 'L', Key: key, Err: ErrStore})
 		return nil, ErrStore
 	}
+	if s.inner != nil {
+		v, err := s.inner.Load(key)
+		s.record(StoreOp{Kind: 'L', Key: key, Val: append([]byte(nil), v...), Err: err})
+		return v, err
+	}
 	v, ok := s.m[key]
 	if !ok {
 		s.record(StoreOp{Kind: 'L', Key: key})
@@ -114,6 +133,13 @@ func (s *Store) Save(key uint, value net.Buffers) error {
 		s.record(StoreOp{Kind: 'S', Key: key, Val: v, Err: ErrStore, Before: before, After: s.w.Broker.Snapshot()})
 		return ErrStore
 	}
+	if s.inner != nil {
+		// (the inner Persistence gets the caller's buffers themselves)
+		if err := s.inner.Save(key, value); err != nil {
+			s.record(StoreOp{Kind: 'S', Key: key, Val: v, Err: err, Before: before, After: s.w.Broker.Snapshot()})
+			return err
+		}
+	}
 	s.m[key] = v
 	s.record(StoreOp{Kind: 'S', Key: key, Val: v, Before: before, After: s.w.Broker.Snapshot()})
 	return nil
@@ -129,6 +155,12 @@ func (s *Store) Delete(key uint) error {
 		s.record(StoreOp{Kind: 'D', Key: key, Err: ErrStore, Before: before, After: s.w.Broker.Snapshot()})
 		return ErrStore
 	}
+	if s.inner != nil {
+		if err := s.inner.Delete(key); err != nil {
+			s.record(StoreOp{Kind: 'D', Key: key, Err: err, Before: before, After: s.w.Broker.Snapshot()})
+			return err
+		}
+	}
 	delete(s.m, key)
 	s.record(StoreOp{Kind: 'D', Key: key, Before: before, After: s.w.Broker.Snapshot()})
 	return nil
@@ -141,6 +173,11 @@ func (s *Store) List() ([]uint, error) {
 	if s.gate('l') {
 		s.record(StoreOp{Kind: 'l', Err: ErrStore})
 		return nil, ErrStore
+	}
+	if s.inner != nil {
+		keys, err := s.inner.List()
+		s.record(StoreOp{Kind: 'l', Err: err})
+		return keys, err
 	}
 	keys := make([]uint, 0, len(s.m))
 	for k := range s.m {
